@@ -72,6 +72,16 @@ def clause_info(path, line, cache={}):
     return tags, ' '.join(out)
 
 
+def _template_fallback(path):
+    """largest fallback_unwind of a loop-contract template if EVERY entry has one, else None"""
+    try:
+        tpl = json.load(open(path))
+    except Exception:
+        return None
+    fbs = [lp.get('fallback_unwind') for fn in tpl['functions'] for lps in fn.values() for lp in lps]
+    return max(fbs) if fbs and all(fbs) else None
+
+
 def run_group(g, work, spec_checks, rulelog_cls, extra_cbmc=None):
     spec_checks = spec_checks and g.spec_checks
     """returns dict(name, status in ok|failed|undecided, reason, obligations=[...], seconds, ...)"""
@@ -129,7 +139,17 @@ def run_group(g, work, spec_checks, rulelog_cls, extra_cbmc=None):
                 fallback_unwind = max(fb)
         gi = os.path.join(gw, 'gi.gb')
         if b.get('enforce') or b.get('replace'):
-            C.instrument(gb, gi, b['entry'], b.get('enforce', []), b.get('replace', []), loops_file, log)
+            try:
+                C.instrument(gb, gi, b['entry'], b.get('enforce', []), b.get('replace', []), loops_file, log)
+            except C.Undecided:
+                tpl_fb = _template_fallback(b.get('loops_tpl')) if loops_file else None
+                if not tpl_fb:
+                    raise
+                # the loop contracts no longer fit the function's loops (goto-instrument rejects them): check the function
+                # contract with the loops unwound instead - BOUNDED, refutations stay valid
+                loops_file, loops_waived, fallback_unwind = None, True, tpl_fb
+                res['bounded'] = (res['bounded'] + '; ' if res['bounded'] else '') + f'loop contracts not applicable to the changed loops: --unwind {tpl_fb} without unwinding assertions'
+                C.instrument(gb, gi, b['entry'], b.get('enforce', []), b.get('replace', []), None, log)
         else:
             gi = gb
         extra = list(b.get('cbmc_extra', [])) + list(extra_cbmc or [])
